@@ -176,22 +176,31 @@ FromIngressController(ep) == ep.kind = "pod" /\ ep.ns = "ingress-nginx"
 IsDNS(port) == port[2] = 53
 
 \* C11, network clauses. Witness sets (empty = holds) so that a failure names its packet class.
-BadIngress(objs, svcs) ==
+\* extra: further remote endpoints (the pods of another lease actually generated into the same cluster)
+BadIngressX(objs, svcs, extra) ==
   LET pols == Pols(objs) gp == GlobalPorts(svcs) IN
   {<<t[2].tag, t[3]>> : t \in
-     {t \in LocalPods(objs) \X Remote \X IngressPorts(svcs) :
+     {t \in LocalPods(objs) \X (Remote \cup extra) \X IngressPorts(svcs) :
         /\ t[2].kind = "ext" \/ t[2].ns # t[1].ns
         /\ Admits(pols, "Ingress", t[1], t[2], t[3])
         /\ ~FromIngressController(t[2])
         /\ t[3] \notin gp}}
-BadEgress(objs) ==
+BadEgressX(objs, extra) ==
   LET pols == Pols(objs) IN
   {<<t[2].tag, t[3]>> : t \in
-     {t \in LocalPods(objs) \X Remote \X EgressPorts :
+     {t \in LocalPods(objs) \X (Remote \cup extra) \X EgressPorts :
         /\ IsPrivate(t[2].ip)
         /\ t[2].kind = "ext" \/ t[2].ns # t[1].ns
         /\ ~IsDNS(t[3])
         /\ Admits(pols, "Egress", t[1], t[2], t[3])}}
+BadIngress(objs, svcs) == BadIngressX(objs, svcs, {})
+BadEgress(objs) == BadEgressX(objs, {})
+\* what belongs to the lease whose namespace is ns: its Namespace object and everything stored in that namespace
+Mine(objs, ns) == {o \in objs : (o.kind = "namespace" /\ o.name = ns) \/ (o.kind # "namespace" /\ o.ans = ns)}
+\* the pods of every other lease in the same cluster, as endpoints
+NeighbourPods(objs, ns) ==
+  {Pod("neighbour-lease-pod", d.ans, NsLabelsOf(objs, d.ans), d.tmplLabels, <<10, 42, 7, 7>>) :
+     d \in {o \in objs : o.kind = "deployment" /\ o.ans # ns}}
 NetIngressOK(objs, svcs) == BadIngress(objs, svcs) = {}
 NetEgressOK(objs) == BadEgress(objs) = {}
 
@@ -221,6 +230,15 @@ BadPlacement(objs, ns) ==
   \cup {<<o.kind, "applied-in">> : o \in {x \in objs : Workload(x) /\ x.ans # ns}}
   \cup {<<o.kind, "metadata.namespace">> : o \in {x \in objs : Workload(x) /\ x.mns \notin {"", ns}}}
 InNamespace(objs, ns) == BadPlacement(objs, ns) = {}
+
+\* API calls that change or delete something outside the lease's namespace (calls: a set of recorded / modelled
+\* calls [verb, kind, ans, ...]). The akash Manifest CRD lives in the provider namespace by design.
+Mutating == {"create", "update", "patch", "delete", "delete-set", "delete-collection"}
+BadCalls(calls, ns) ==
+  {<<a.verb, a.kind>> : a \in {x \in calls : x.verb \in Mutating /\
+     CASE x.kind = "manifest" -> FALSE
+       [] x.kind = "namespace" -> (IF x.verb = "delete-set" THEN x.names # {ns} ELSE x.name # ns)
+       [] OTHER -> x.ans # ns}}
 
 Containers(objs) == UNION {{[dep |-> d.name, c |-> d.containers[i]] : i \in DOMAIN d.containers} : d \in {o \in objs : o.kind = "deployment"}}
 
@@ -387,6 +405,11 @@ Step(cluster, ns, l, r, step) ==
          LET f == IngressObj(ns, r.svcs[step.s], r.svcs[step.s].exposes[step.e], r.st) IN
          ApplyOne(cluster, f, LAMBDA old : [old EXCEPT !.labels = f.labels, !.rules = f.rules])
 
+\* TeardownLease (client.go): delete the lease's namespace; Kubernetes then removes everything stored in it
+Teardown(cluster, ns) ==
+  [acts |-> <<[verb |-> "delete-set", kind |-> "namespace", ans |-> "", names |-> {ns}]>>,
+   cluster |-> cluster \ Mine(cluster, ns)]
+
 \* a whole round, folded (used by the trace module to compute what the spec allows)
 RECURSIVE RunSteps(_, _, _, _, _)
 RunSteps(cluster, ns, l, r, steps) ==
@@ -406,37 +429,72 @@ vars == <<cur, rnd, todo, cluster>>
 \* for injectivity and DNS-1123 validity, in KubePolicyTrace
 NS(l) == l.ns
 
+\* An input is [id, slice, lease, rounds, other]: the main lease is deployed Len(rounds) times (manifest updates),
+\* then each lease of `other` (0..1) is deployed once into the same cluster, then the main lease is torn down.
+Phases(inp) == [k \in 1..Len(inp.rounds) |-> [lease |-> inp.lease, r |-> inp.rounds[k]]]
+               \o [k \in 1..Len(inp.other) |-> [lease |-> inp.other[k].lease, r |-> inp.other[k].r]]
+NPh == Len(Phases(cur))
+NMain == Len(cur.rounds)
+PhLease(k) == Phases(cur)[k].lease
+PhRound(k) == Phases(cur)[k].r
+Ns1 == NS(cur.lease)
+
 Init == /\ cur \in Inputs
         /\ rnd = 1
         /\ cluster = {ProviderNamespaceObj}
         /\ todo = RoundSteps(cur.rounds[1])
 
 DoStep == /\ todo # <<>>
-          /\ cluster' = Step(cluster, NS(cur.lease), cur.lease, cur.rounds[rnd], Head(todo)).cluster
+          /\ rnd <= NPh
+          /\ cluster' = Step(cluster, NS(PhLease(rnd)), PhLease(rnd), PhRound(rnd), Head(todo)).cluster
           /\ todo' = Tail(todo)
           /\ UNCHANGED <<cur, rnd>>
 
 NextRound == /\ todo = <<>>
-             /\ rnd < Len(cur.rounds)
+             /\ rnd < NPh
              /\ rnd' = rnd + 1
-             /\ todo' = RoundSteps(cur.rounds[rnd + 1])
+             /\ todo' = RoundSteps(PhRound(rnd + 1))
              /\ UNCHANGED <<cur, cluster>>
 
-Next == DoStep \/ NextRound
+TeardownMain == /\ todo = <<>>
+                /\ rnd = NPh
+                /\ rnd' = NPh + 1
+                /\ cluster' = Teardown(cluster, Ns1).cluster
+                /\ UNCHANGED <<cur, todo>>
+
+Next == DoStep \/ NextRound \/ TeardownMain
 Spec == Init /\ [][Next]_vars
 
-SvcSets == {cur.rounds[k].svcs : k \in 1..rnd}
-SvcsSoFar == Flatten([k \in 1..rnd |-> cur.rounds[k].svcs])
-NetpolSettled == cur.rounds[rnd].st.netpol /\ \A i \in DOMAIN todo : todo[i].t # "netpol"
-Done == todo = <<>> /\ rnd = Len(cur.rounds)
+KMin(a, b) == IF a <= b THEN a ELSE b
+LastMain == KMin(rnd, NMain)                       \* the latest round of the main lease started so far
+Live == rnd <= NPh                                \* the main lease has not been torn down
+SvcSets == {PhRound(k).svcs : k \in 1..KMin(rnd, NPh)}
+MainSvcsSoFar == Flatten([k \in 1..LastMain |-> cur.rounds[k].svcs])
+NoPolicyStepPending == \A i \in DOMAIN todo : todo[i].t # "netpol"
+MainNetSettled  == Live /\ cur.rounds[LastMain].st.netpol /\ (rnd <= NMain => NoPolicyStepPending)
+OtherNetSettled == Live /\ rnd > NMain /\ PhRound(rnd).st.netpol /\ NoPolicyStepPending
+Done == todo = <<>> /\ rnd = NMain
+LeasesSoFar == {PhLease(k) : k \in 1..KMin(rnd, NPh)}
 
-TypeOK == rnd \in 1..Len(cur.rounds) /\ ProviderNamespaceObj \in cluster /\ \A o \in cluster : o.kind \in {"namespace", "manifest", "netpol", "deployment", "service", "ingress"}
-InvPlacement == InNamespace(cluster, NS(cur.lease))
+TypeOK == rnd \in 1..(NPh + 1) /\ ProviderNamespaceObj \in cluster /\ \A o \in cluster : o.kind \in {"namespace", "manifest", "netpol", "deployment", "service", "ingress"}
+\* every object lives in the namespace of one of the leases deployed so far, and is labelled for that lease
+InvPlacement ==
+  /\ \A o \in cluster : o.kind = "namespace" => o.name \in {NS(l) : l \in LeasesSoFar} \cup {ProviderNS}
+  /\ \A o \in cluster : Workload(o) => \E l \in LeasesSoFar : o.ans = NS(l) /\ o.mns \in {"", NS(l)} /\ <<LNs, NS(l)>> \in o.labels
+  /\ \A l \in LeasesSoFar : InNamespace(Mine(cluster, NS(l)), NS(l))
 InvSandbox   == Sandboxed(cluster)
 InvLimits    == LimitsLeased(cluster, SvcSets)
-InvIngress   == NetpolSettled => NetIngressOK(cluster, SvcsSoFar)
-InvEgress    == NetpolSettled => NetEgressOK(cluster)
-InvPositive  == (Done /\ Len(cur.rounds) = 1 /\ cur.rounds[1].st.netpol) => NetPositive(cluster, NS(cur.lease), cur.rounds[1].svcs)
-\* after a complete Deploy the cluster holds exactly one deployment per service of the last manifest
-InvComplete  == Done => {o.name : o \in {x \in cluster : x.kind = "deployment"}} = {cur.rounds[rnd].svcs[i].name : i \in DOMAIN cur.rounds[rnd].svcs}
+InvIngress   == MainNetSettled => BadIngressX(Mine(cluster, Ns1), MainSvcsSoFar, NeighbourPods(cluster, Ns1)) = {}
+InvEgress    == MainNetSettled => BadEgressX(Mine(cluster, Ns1), NeighbourPods(cluster, Ns1)) = {}
+InvIngressOther == OtherNetSettled => BadIngressX(Mine(cluster, NS(PhLease(rnd))), PhRound(rnd).svcs, NeighbourPods(cluster, NS(PhLease(rnd)))) = {}
+InvEgressOther  == OtherNetSettled => BadEgressX(Mine(cluster, NS(PhLease(rnd))), NeighbourPods(cluster, NS(PhLease(rnd)))) = {}
+InvPositive  == (Done /\ NMain = 1 /\ cur.rounds[1].st.netpol) => NetPositive(cluster, Ns1, cur.rounds[1].svcs)
+\* after a complete Deploy the namespace holds exactly one deployment per service of the last manifest
+InvComplete  == (todo = <<>> /\ Live) =>
+                  {o.name : o \in {x \in Mine(cluster, NS(PhLease(rnd))) : x.kind = "deployment"}} = {PhRound(rnd).svcs[i].name : i \in DOMAIN PhRound(rnd).svcs}
+\* after teardown nothing of the main lease is left, and the neighbour is untouched
+InvTornDown  == ~Live => Mine(cluster, Ns1) = {}
+\* deploying or tearing down one lease never changes what belongs to another
+Isolation == [][ /\ (rnd > NMain /\ rnd' <= NPh) => Mine(cluster', Ns1) = Mine(cluster, Ns1)
+                 /\ (rnd = NPh /\ rnd' = NPh + 1) => \A k \in (NMain + 1)..NPh : Mine(cluster', NS(PhLease(k))) = Mine(cluster, NS(PhLease(k))) ]_vars
 =============================================================================
